@@ -33,8 +33,17 @@ class SymArr(_np.ndarray):
     """ndarray subclass, dtype=object, elements SReal/SInt/SBool or plain numbers."""
 
     def astype(self, dtype, *a, **k):
-        if dtype in _REAL_DTYPES or dtype is object:
+        if dtype is object:
             return self.copy()
+        if dtype in _REAL_DTYPES:
+            c = self.copy()
+            flat = c.view(_np.ndarray).reshape(-1)
+            for i, v in enumerate(flat.tolist()):
+                if isinstance(v, SBool):
+                    flat[i] = v._r()          # True -> 1.0, False -> 0.0 (as a term)
+                elif isinstance(v, (bool, _np.bool_)):
+                    flat[i] = float(v)
+            return c
         if dtype in (bool, _np.bool_):
             flat = [bool(v) for v in _np.asarray(self).ravel().tolist()]
             return _np.array(flat, dtype=bool).reshape(self.shape)
